@@ -91,7 +91,12 @@ def gen_infohash(repo):
                    r"Ok\(Self::from_bencoded_info_dict\(&encoded\)\) \} else \{", body)
     fm = re.search(r"fn from_bencoded_info_dict\(info: &\[u8\]\) -> Infohash \{ Infohash \{ inner: "
                    r"Sha1Digest::from_data\(info\), \} \}", " ".join(src.split()))
-    reenc = bool(hm and fm)
+    # a fact is emitted only when it is READ: when the expected shape is not there the source is not readable (soft tie,
+    # reference tables), never "false" - `false` would claim that something else is hashed
+    if not (hm and fm):
+        raise Untranslatable("from_input / from_bencoded_info_dict: the bytes handed to SHA-1 are not recognisably "
+                             "`info.to_bencode()` of the located value")
+    reenc = True
     # typed side
     msrc = strip_comments(strip_tests(read(repo, "src/metainfo.rs")))
     mf = struct_fields(msrc, r"struct Metainfo")
@@ -106,6 +111,8 @@ def gen_infohash(repo):
     lossy_ok = bool(lm and re.fullmatch(
         r"let encoded = bendy::serde::ser::to_bytes\(self\)\.context\(error::InfoSerialize\)\?; "
         r"Ok\(Infohash::from_bencoded_info_dict\(&encoded\)\)", " ".join(lm.group(1).split())))
+    if not lossy_ok:
+        raise Untranslatable("Info::infohash_lossy is not recognisably the hash of the typed struct's serialisation")
     mosrc = strip_comments(strip_tests(read(repo, "src/mode.rs")))
     if not re.search(r"#\[serde\(untagged\)\]\s*pub\(crate\) enum Mode", mosrc):
         raise Untranslatable("Mode is not an untagged enum")
